@@ -43,7 +43,7 @@ add("C16", "runtime monitor over the lexer hook (exhaustive block sequences) and
 
 add("C20", "recorded client-boundary histories checked offline with porcupine v1.3.0 against a sequential map model (per-key partitioning), exactly-once fetch accounting on a recording loader, Go race detector",
     "Runtime exploration: sequential and concurrent (2-8 clients, barrier-separated phases, sleeping loader, GOMAXPROCS 2/4/16) histories over FromCache/CleanCache/Debug/content change/loader failure on 1-3 names and 1-2 sets are recorded with call/return stamps; every returned template is identified by pointer and by the content version it renders; porcupine decides linearizability against the cache model, loader fetches must equal templates created, templates must show their own set's globals/options, and the -race worker must report no engine race. Held = all observed histories linearizable.",
-    "Trusts porcupine and the 60-line model. Debug/content/failure toggles are issued only at barriers in concurrent phases. Checker timeouts (10 s per history) are reported as a violation kind 'checker-timeout-inconclusive' and never occurred on the unchanged tree.")
+    "Trusts porcupine and the 60-line model. Debug/content/failure toggles are issued only at barriers in concurrent phases. A checker timeout (10 s per history) makes the run inconclusive (exit 2); none occurred on the unchanged tree.")
 
 ALL = ["C%02d" % i for i in range(1, 21)]
 NOT_YET = {}
